@@ -1,5 +1,6 @@
 import XdsVerif.Driver.Util
 import XdsVerif.Model.Bootstrap
+import XdsVerif.Model.Fqdn
 import XdsVerif.Generated.Facts
 import XdsVerif.Spec.C20
 namespace XdsVerif.Driver.C20
@@ -60,7 +61,18 @@ def check (j : Json) : Except String Verdict := do
           let canon (o : JObj) : List (String × JV) := (o.toArray.qsort (fun a b => a.1 < b.1)).toList
           if canon c.metadata != canon (toJObj md) then some s!"metadata: model {repr (canon c.metadata)}, impl {repr (canon (toJObj md))}"
           else none
-    return { nontrivial := parsed.isSome, mismatch := mm, specfail := sf }
+    -- name expansion under this configuration: the effective namespace (metadata NAMESPACE, else the pod's) and domain
+    let sfx : Option String :=
+      if err then none else
+      match (jStrList obs "expand").toOption with
+      | some [e1, e2] =>
+        let w1 := String.ofList (Fqdn.expand ns.toList dom.toList "reviews".toList)
+        let w2 := String.ofList (Fqdn.expand ns.toList dom.toList "reviews.team-x".toList)
+        if e1 != w1 then some s!"C20.namespace_override (name expansion): under namespace '{ns}' and domain '{dom}' the host 'reviews' expands to '{e1}', expected '{w1}'"
+        else if e2 != w2 then some s!"C20.namespace_override (name expansion): 'reviews.team-x' expands to '{e2}', expected '{w2}'"
+        else none
+      | _ => none
+    return { nontrivial := parsed.isSome, mismatch := mm <|> sfx.map (fun m => "expansion: " ++ m), specfail := sf <|> sfx }
   | "requests" =>
     let nodeId ← jStr obs "nodeId"
     let mdj ← obs.getObjVal? "meta"
